@@ -131,6 +131,21 @@ def menu():
     c('cnfgen', '-of latex kcolor 2 gnp 5 .5')
     c('cnfgen', '-of opb tseitin random gnm 7 9')
     c('cnfgen', '--varnames php glrd 4 5 2')
+    # every output format with every type of graph argument (the LaTeX
+    # document describes the command line, the headers describe the graphs)
+    for of in ('-of latex', '-of opb', '-l', '--varnames -of latex'):
+        c('cnfgen', of + ' php glrd 3 2 2')
+        c('cnfgen', of + ' peb pyramid 1')
+        c('cnfgen', of + ' subsetcard regular 3 3 2')
+        c('cnfgen', of + ' stone 2 tree 1')
+        c('cnfgen', of + ' php 3 2 -T xorcomp glrd 6 4 2')
+        c('cnfgen', of + ' kcolor 2 {REL}simple.gml')
+        c('cnfgen', of + ' peb {REL}dag.kthlist')
+        c('cnfgen', of + ' php {REL}bip.matrix')
+    for of in ('-of latex', '-l'):
+        c('pbgen', of + ' peb pyramid 1')
+        c('pbgen', of + ' php glrd 3 2 2')
+        c('pbgen', of + ' kcolor 2 gnp 4 .5')
     c('cnfgen', 'php 6 5 3')
     c('cnfgen', 'ec gnd 8 4')
     c('cnfgen', 'ec torus 3 3')
